@@ -24,7 +24,7 @@ func init() {
 		Run: c07,
 		Explanation: "Decides that the filter tables cover the machinery and that the syncers apply them: (R7.1) the field paths used by the claim/XR accessors that crossplane calls (extracted from the crossplane-runtime method bodies) have their top-level key in the corresponding xcrd table; PropagateSpecProps ⊆ both tables; claim-only keys are never propagated; the fields the statement names as claim-only / XR-owned lie outside PropagateSpecProps; " +
 			"(R7.2) the XR spec written is withoutKeys(claim spec, keys of the claim table minus only PropagateSpecProps and, on the Manual edge, compositionRevisionRef), and withoutKeys filters top-level keys only, storing the original values; (R7.3) the status reaching the claim is filtered by the status table; (R7.4) claim labels/annotations reach the XR only through withoutReservedK8sEntries, which deletes on both reserved suffixes; " +
-			"(R7.5) the XR's external name is read before claim metadata is copied onto the same object and restored afterwards; compositionRef flows XR→claim only when the claim has none, compositionRevisionRef only on the Automatic edge; (R7.6) no bulk flow from the XR's spec map into the claim's spec map. R7.5 also requires persistence: after an XR-owned value (external name, composition / revision reference) was put on the claim, no success return is reached without a successful client.Update of the claim. R7.5 also requires that under Automatic the XR's revision reaches the claim whether or not the claim already has one.",
+			"(R7.5) the XR's external name is read before claim metadata is copied onto the same object and restored afterwards; compositionRef flows XR→claim only when the claim has none, compositionRevisionRef only on the Automatic edge; (R7.6) no bulk flow from the XR's spec map into the claim's spec map. R7.5 also requires persistence: after an XR-owned value (external name, composition / revision reference) was put on the claim, no success return is reached without a successful client.Update of the claim. R7.5 also requires that under Automatic the XR's revision reaches the claim whether or not the claim already has one. R7.3 also requires that the options of merge() set their own field of the config only.",
 		NotDecided:  []string{"equality of propagated values", "CRD pruning by the API server", "server-side-apply field ownership semantics"},
 		Assumptions: []string{"fieldpath accessors of crossplane-runtime read/write exactly the constant path they are given"},
 	})
